@@ -148,6 +148,16 @@ def norm_int_index(np_, i, n):
 
 
 def getitem(np_, a, idx):
+    if isinstance(idx, TArr) and idx.dtype.kind == "b":
+        # a[mask]: only the mask that provably selects everything (NaN-free data under dropna) is within the subset
+        if a.ndim != 1 or idx.ndim != 1:
+            raise Untranslatable("boolean mask on an n-d array of symbolic extent")
+        ctx = np_.I.ctx
+        n, m = term_of(raw(a.shape[0]), "int"), term_of(raw(idx.shape[0]), "int")
+        i = z3.Int(ctx.fresh_name("i"))
+        if ctx.entails(z3.And(n == m, z3.ForAll([i], z3.Implies(z3.And(i >= 0, i < n), z3.Select(idx.term, i))))):
+            return TArr(a.term, a.shape, a.dtype)
+        raise Untranslatable("boolean mask on an array of symbolic extent that is not provably all True")
     if isinstance(idx, TArr):
         # a[index array] (1-D): element i is a[idx[i]]  (indices are assumed in range: they come from argsort)
         if a.ndim != 1 or idx.ndim != 1 or idx.dtype.kind not in "iu":
@@ -327,6 +337,8 @@ def array_attr(np_, a, name):
     if name == "flatten":
         if a.ndim == 1:
             return Builtin("flatten", lambda *x: TArr(a.term, a.shape, a.dtype))
+    if not hasattr(_np.ndarray, name):
+        raise Raised(AttributeError(f"'numpy.ndarray' object has no attribute '{name}'"))
     raise Untranslatable(f"ndarray.{name} on symbolic-extent array")
 
 
